@@ -413,3 +413,92 @@ func describe(ref map[string]*sRef, under []string, q string, prefix bool) strin
 	}
 	return "{" + strings.Join(p, ", ") + "}"
 }
+
+// runBigRemove: removal by prefix of an object with about a thousand packets (store code has scan
+// bounds at 1000 keys). The real Client.Produce writes an object of N segments (+ metadata) into a
+// MemoryStore and a BoltStore (scaled build: N segments are 4*N bytes); Remove(<object>/<version>,
+// prefix) must leave no segment behind (every 100th, the first and the last three are asked for by
+// exact name, and the prefix itself), must leave the metadata packet alone, and Remove(<object>,
+// prefix) must then leave nothing. No consumer runs.
+func runBigRemove(rep *report.Reporter) map[string]any {
+	S := object.VerifSegmentSize()
+	sizes := []int{999, 1000, 1001, 1200}
+	if S >= 100 {
+		return map[string]any{"skipped": "real segment size"}
+	}
+	checked := 0
+	for _, N := range sizes {
+		for _, kind := range []string{"mem", "bolt"} {
+			var store ndn.Store
+			var bs *object.BoltStore
+			if kind == "bolt" {
+				p := filepath.Join(tmpBase(), fmt.Sprintf("big-%d-%d.db", os.Getpid(), N))
+				os.Remove(p)
+				b, err := object.NewBoltStore(p)
+				if err != nil {
+					report.Fatal("bolt: %v", err)
+				}
+				object.VerifBoltNoSync(b)
+				store, bs = b, b
+			} else {
+				store = object.NewMemoryStore()
+			}
+			desc := fmt.Sprintf("%s: Produce(/a, version 1, %d segments)", kind, N)
+			bad := func(clause, key, detail string) {
+				rep.Add(report.Violation{Clause: clause, Key: key, Detail: desc + " :: " + detail,
+					Replay: map[string]any{"large_prefix_remove": N, "store": kind}})
+			}
+			cl := object.NewClient(&hEngine{role: "producer"}, store)
+			ver := uint64(1)
+			data := contentOf("/a", ver, N*S)
+			base, err := cl.Produce(object.ProduceArgs{Name: mkName("/a", 0), Content: enc.Wire{append([]byte{}, data...)}, Version: &ver})
+			if err != nil {
+				bad("C15.bytes", "Produce fails for non-empty content", err.Error())
+				continue
+			}
+			var probe []int
+			for k := 0; k < N; k += 100 {
+				probe = append(probe, k)
+			}
+			probe = append(probe, N-3, N-2, N-1)
+			segName := func(k int) enc.Name { return append(base.Clone(), enc.NewSegmentComponent(uint64(k))) }
+			meta := append(mkName("/a", 0), enc.NewStringComponent(enc.TypeKeywordNameComponent, "metadata"))
+			for _, k := range probe {
+				if w, _ := store.Get(segName(k), false); w == nil {
+					bad("C15.bytes", "Produce does not store every segment", fmt.Sprintf("segment %d missing before the removal", k))
+				}
+				checked++
+			}
+			if err := store.Remove(base, true); err != nil {
+				bad("C15.removed", kind+": Remove returns an error", err.Error())
+			}
+			left := []string{}
+			for _, k := range probe {
+				if w, _ := store.Get(segName(k), false); w != nil {
+					left = append(left, fmt.Sprint(k))
+				}
+				checked++
+			}
+			if w, _ := store.Get(base, true); w != nil {
+				left = append(left, "prefix Get")
+			}
+			if len(left) > 0 {
+				bad("C15.removed", kind+": Remove(prefix) leaves packets under the prefix that are still served", fmt.Sprintf("after Remove(%s, prefix) still served: segments %v", base, left))
+			}
+			if w, _ := store.Get(meta, true); w == nil {
+				bad("C15.stores", kind+": Remove(prefix) removes packets outside the prefix", fmt.Sprintf("after Remove(%s, prefix) the metadata packet under %s is gone", base, meta))
+			}
+			if err := store.Remove(mkName("/a", 0), true); err != nil {
+				bad("C15.removed", kind+": Remove returns an error", err.Error())
+			}
+			if w, _ := store.Get(mkName("/a", 0), true); w != nil {
+				bad("C15.removed", kind+": Remove(prefix) leaves packets under the prefix that are still served", fmt.Sprintf("after Remove(/a, prefix) Get(/a, prefix) still returns %d bytes", len(w)))
+			}
+			checked += 3
+			if bs != nil {
+				bs.Close()
+			}
+		}
+	}
+	return map[string]any{"segments": sizes, "stores": []string{"mem", "bolt"}, "gets_checked": checked}
+}
